@@ -45,7 +45,12 @@ def atom_matches(a, req):
         if q == path[:len(q)] or path == q[:len(path)]:
             return True
         # field name anywhere in the recorded path (wrapper levels differ between enum/struct views)
-        return bool(path) and all(f in q for f in path)
+        if bool(path) and all(f in q for f in path):
+            return True
+        # the same comparison with the positional levels (enum payloads, tuple members) left out: a whole-value dependence recorded under a
+        # wrapper level (`self.0.list`) covers a field of it (`self.list.commitment.value`)
+        q2, p2 = tuple(x for x in q if not str(x).isdigit()), tuple(x for x in path if not str(x).isdigit())
+        return bool(q2) and bool(p2) and (q2 == p2[:len(q2)] or p2 == q2[:len(p2)])
     if kind == 'a':
         return a[0] == 'a' and (a[1] == req[1] or a[1].endswith('::' + req[1]))
     if kind == 'c':
